@@ -307,6 +307,71 @@ let run_skiprun args = match args with
       emit (L (A "items" :: reader_items_sx "bed3" (fun _ -> None) (Some p) s)))
   | _ -> raise (Bad "skiprun args")
 
+(* ---------- extsort ---------- *)
+let wop_of x = match x with
+  | L [A "acc"; k] -> WAccept (nat_ k) | A "zero" -> WZero | A "err" -> WErr | A "intr" -> WIntr
+  | _ -> raise (Bad "wop")
+let rop_of x = match x with
+  | L [A "give"; k] -> RGive (nat_ k) | A "intr" -> RIntr | A "err" -> RErr
+  | _ -> raise (Bad "rop")
+let sx_citem = function CItem v -> L [A "ok"; A (hex_of_bytes v)] | CIoErr -> A "ioerr" | CDeErr -> A "deerr"
+let citem_of x = match x with
+  | L [A "ok"; h] -> CItem (bytes_of_hex (atom h)) | A "ioerr" -> CIoErr | A "deerr" -> CDeErr
+  | _ -> raise (Bad "citem")
+(* payloads are given as (len seed): byte i of the blob = (seed + i * 7) mod 256 *)
+let blob_of x = match x with
+  | L [len; seed] -> let n = int_ len and sd = int_ seed in List.init n (fun i -> n_of_int ((sd + i * 7) land 255))
+  | _ -> raise (Bad "blob")
+let run_chunk args = match args with
+  | [A stack; items; wplan; rplan] -> with_panic (fun emit ->
+      let items = List.map blob_of (tagged "items" items) in
+      if stack <> "bare" then emit (A "oracle-only")
+      else begin
+        let (st, e) = dump { w_stored = []; w_plan = List.map wop_of (tagged "wplan" wplan) } items in
+        match e with
+        | Some _ -> emit (L [A "dump"; A "err"])
+        | None ->
+          emit (L [A "dump"; A "ok"]);
+          emit (L [A "stored"; A (hex_of_bytes st.w_stored)]);
+          emit (L (A "items" :: List.map sx_citem (chunk_read st.w_stored (List.map rop_of (tagged "rplan" rplan)))))
+      end)
+  | _ -> raise (Bad "chunk args")
+let run_chunkchk args = match args with
+  | [items; A dump_ok; got; A hard] ->
+    let items = List.map blob_of (tagged "items" items) in
+    let got = List.map citem_of (tagged "got" got) in
+    L [A "verdict"; sx_bool (chunk_oracle items (dump_ok = "1") got (hard = "1"))]
+  | _ -> raise (Bad "chunkchk args")
+let mitem_of x = match x with
+  | L [A "ok"; k; id] -> MOk (num k, num id) | L [A "err"; t] -> MErr (num t) | _ -> raise (Bad "mitem")
+let sx_mout = function OutOk (k, id) -> L [A "ok"; an k; an id] | OutErr t -> L [A "err"; an t]
+let mout_of x = match x with
+  | L [A "ok"; k; id] -> OutOk (num k, num id) | L [A "err"; t] -> OutErr (num t) | _ -> raise (Bad "mout")
+let chunks_of x = List.map (fun c -> List.map mitem_of (lst c)) (tagged "chunks" x)
+let run_kmerge args = match args with
+  | [A rev; chunks; ncalls] -> with_panic (fun emit ->
+      let r = ok (merger_calls (rev = "1") (nat_ ncalls) { m_chunks = chunks_of chunks; m_heap = []; m_init = false }) in
+      emit (L (A "calls" :: List.map (function Some o -> sx_mout o | None -> A "none") r)))
+  | _ -> raise (Bad "kmerge args")
+let run_kmergechk args = match args with
+  | [A rev; chunks; outs] ->
+    L [A "verdict"; sx_bool (merge_oracle (rev = "1") (chunks_of chunks) (List.map mout_of (tagged "outs" outs)))]
+  | _ -> raise (Bad "kmergechk args")
+let run_xsort args = match args with
+  | [cs; _threads; _comp; A rev; items] -> with_panic (fun emit ->
+      let input = List.map (fun x -> match lst x with k :: id :: _ -> (num k, num id) | _ -> raise (Bad "xsort item")) (tagged "items" items) in
+      (* the default chunk size (50,000,000) exceeds every generated input: same behaviour as len + 1 *)
+      let cs = (match cs with A "default" -> nat_of_int (List.length input + 1) | x -> nat_ x) in
+      let (n, out) = ok (ext_sort_isort (rev = "1") cs input) in
+      emit (L [A "len"; anat n]);
+      emit (L (A "out" :: List.map sx_mout out)))
+  | _ -> raise (Bad "xsort args")
+let run_tmpchk args = match args with
+  | [before; during; after] ->
+    let names x = List.map (fun a -> bytes_of_hex (atom a)) x in
+    L [A "verdict"; sx_bool (tmp_ok (names (tagged "before" before)) (List.map (fun d -> names (lst d)) (tagged "during" during)) (names (tagged "after" after)))]
+  | _ -> raise (Bad "tmpchk args")
+
 let run_case (x : sexp) : sexp =
   match x with
   | L (A "lap" :: args) -> run_lap args
@@ -325,6 +390,13 @@ let run_case (x : sexp) : sexp =
   | L (A "read" :: args) -> run_read args
   | L (A "wr" :: args) -> run_wr args
   | L (A "skiprun" :: args) -> run_skiprun args
+  | L (A "chunk" :: args) -> run_chunk args
+  | L (A "chunkchk" :: args) -> run_chunkchk args
+  | L (A "kmerge" :: args) -> run_kmerge args
+  | L (A "kmergechk" :: args) -> run_kmergechk args
+  | L (A "xsort" :: args) -> run_xsort args
+  | L (A "tmpchk" :: args) -> run_tmpchk args
+  | L (A "tmp" :: _) -> L [A "r"; A "oracle-only"]
   | _ -> raise (Bad "unknown case kind")
 
 let () =
@@ -336,7 +408,10 @@ let () =
         Buffer.clear b;
         (try print_sexp b (run_case (parse_line line))
          with Bad m -> Buffer.clear b; Buffer.add_string b ("(glue-error " ^ String.escaped m ^ ")")
-            | Stack_overflow -> Buffer.clear b; Buffer.add_string b "(glue-error stack-overflow)");
+            | Stack_overflow -> Buffer.clear b; Buffer.add_string b "(glue-error stack-overflow)"
+            | Failure m -> Buffer.clear b; Buffer.add_string b ("(glue-error failure-" ^ String.escaped m ^ ")")
+            | Not_found -> Buffer.clear b; Buffer.add_string b "(glue-error not-found)"
+            | Invalid_argument m -> Buffer.clear b; Buffer.add_string b ("(glue-error invalid-" ^ String.escaped m ^ ")"));
         print_string (Buffer.contents b); print_newline ()
       end
     done
